@@ -28,6 +28,9 @@ package errors
 //@   modifies cells
 //@ func Is
 //@   pure
+//@   nilable err target
+//@   ensures err == nil && target != nil ==> !result
+//@   ensures err == target ==> result
 //@ func Unwrap
 //@   pure
 //@ func New
